@@ -4,6 +4,9 @@ From Outrank Require Import IO.Str.
 Import ListNotations.
 Open Scope N_scope.
 
+Lemma frev_rev {A} (l : list A) : frev l = rev l.
+Proof. unfold frev. symmetry. apply rev_alt. Qed.
+
 (* ---------- predicates used in the well-formedness conditions ---------- *)
 
 (* no character of [l] satisfies [p] *)
@@ -74,7 +77,7 @@ Proof. destruct l as [|c l]; [reflexivity|]. cbn [head_ok drop_while]. intros ->
 
 Lemma rstrip_app p l w : all p w -> last_ok p l -> rstrip p (l ++ w) = l.
 Proof.
-  intros Hw Hl. unfold rstrip. rewrite rev_app_distr, drop_while_all by (apply all_rev, Hw).
+  intros Hw Hl. unfold rstrip. rewrite !frev_rev, rev_app_distr, drop_while_all by (apply all_rev, Hw).
   rewrite drop_while_head_ok by exact Hl. apply rev_involutive.
 Qed.
 
@@ -152,7 +155,7 @@ Lemma phys_lines_aux_line l : forall cur rest, none is_nl l ->
   phys_lines_aux cur (l ++ LF :: rest) = (rev cur ++ l ++ [LF]) :: phys_lines_aux [] rest.
 Proof.
   induction l as [|c l IH]; intros cur rest H.
-  - cbn [app phys_lines_aux]. rewrite N.eqb_refl. cbn [rev]. reflexivity.
+  - cbn [app phys_lines_aux]. rewrite N.eqb_refl, frev_rev. cbn [rev]. reflexivity.
   - apply none_cons in H. destruct H as [Hc Hl]. unfold is_nl in Hc. apply orb_false_iff in Hc.
     destruct Hc as [H1 H2]. cbn [app phys_lines_aux]. rewrite H1, H2, IH by exact Hl.
     cbn [rev]. rewrite <- app_assoc. reflexivity.
